@@ -651,7 +651,7 @@ func (g *Gen) Txn() []AOp {
 			return ops
 		}
 	}
-	if g.chance(0.1 * g.P.Fail) {
+	if g.chance(0.25 * g.P.Fail) {
 		if ops := g.FailScenario(); ops != nil {
 			return ops
 		}
